@@ -5,6 +5,7 @@ import (
 	"go/constant"
 	"go/token"
 	"go/types"
+	"sort"
 	"strings"
 
 	"golang.org/x/tools/go/ssa"
@@ -771,6 +772,28 @@ func ruleNameSetExact(c *Ctx, rule string) {
 				okKey, why = false, fmt.Sprintf("%T", s)
 			}
 		}
+		// a field that encoding/json omits (unexported, or tagged "-") has no JSON name: it must not be inserted
+		// (its name is the empty string, which would make the unknown keyword "" look known)
+		fromInfoName := false
+		for _, s := range traceSources(mu.Key) {
+			switch x := s.(type) {
+			case *ssa.Field:
+				fromInfoName = fromInfoName || core.CanonFieldOf(x.X.Type(), x.Field) == "name"
+			case *ssa.UnOp:
+				if fa, ok := x.X.(*ssa.FieldAddr); ok && core.CanonFieldOf(fa.X.Type(), fa.Field) == "name" {
+					fromInfoName = true
+				}
+			}
+		}
+		if fromInfoName {
+			notOmitted := false
+			for _, g := range guardsOf(mu) {
+				if !g.Pol && mentionsStructFieldNamed(g.Cond, "omit", 4) {
+					notOmitted = true
+				}
+			}
+			c.R.Check(notOmitted, rule, fmt.Sprintf("%s:insert#%d:not-omitted", core.FuncName(nameFn), n), c.pos(mu), "only fields that are not omitted enter the name set", "a field's name enters the JSON-name set without the test that the field is not omitted: omitted fields have the empty name, so the keyword \"\" would be treated as known and dropped from Extra")
+		}
 		c.R.Check(okKey, rule, fmt.Sprintf("%s:insert#%d", core.FuncName(nameFn), n), c.pos(mu), "the inserted member is a field's JSON name (or a member of an embedded struct's set)",
 			"the JSON-name set receives "+why+" instead of a field's exact JSON name: keys that are not keywords would be treated as known (hidden from Extra, let through to the case-insensitive struct decoder)")
 	})
@@ -849,6 +872,11 @@ func ruleC05UnionVariants(c *Ctx) {
 				if byte(kv) == w.b && equal == w.pol {
 					discr = true
 				}
+				if byte(kv) != w.b && !w.pol && !equal && (field == "DependencySchemas" || field == "Items") {
+					// the "everything else" variant is withheld for some first byte: that value is decoded nowhere
+					c.R.Bad(rule, "variant:"+field+":value-dropped", c.pos(at), fmt.Sprintf("Schema.%s is not assigned when the raw value starts with %q: such a value (e.g. the boolean schema true) is parsed but stored in neither variant, so the subschema location disappears from the schema tree (a $ref to it fails, and the document does not round-trip)", field, string(rune(kv))))
+					return
+				}
 				if byte(kv) != w.b && w.pol && equal {
 					// assigned under another variant's discriminator
 					discr = false
@@ -888,4 +916,193 @@ func isFirstByte(v ssa.Value) bool {
 	}
 	kv, ok := constInt(k)
 	return ok && kv == 0
+}
+
+// mentionsStructFieldNamed: v is (the negation of) a load of a struct field with the given canonical name.
+func mentionsStructFieldNamed(v ssa.Value, name string, depth int) bool {
+	if v == nil || depth == 0 {
+		return false
+	}
+	switch x := v.(type) {
+	case *ssa.Field:
+		return core.CanonFieldOf(x.X.Type(), x.Field) == name || mentionsStructFieldNamed(x.X, name, depth-1)
+	case *ssa.UnOp:
+		if fa, ok := x.X.(*ssa.FieldAddr); ok {
+			return core.CanonFieldOf(fa.X.Type(), fa.Field) == name
+		}
+		return mentionsStructFieldNamed(x.X, name, depth-1)
+	case *ssa.BinOp:
+		return mentionsStructFieldNamed(x.X, name, depth-1) || mentionsStructFieldNamed(x.Y, name, depth-1)
+	}
+	return false
+}
+
+func init() {
+	p := Properties["C05"]
+	p.Rules = append(p.Rules, Rule{"C05/errors-checked", ruleC05ErrorsChecked})
+}
+
+// No error produced while a document is decoded (or a schema encoded) is dropped: every error-typed result
+// of a call in the families of UnmarshalJSON and MarshalJSON is tested, returned or handed on. An error that
+// is overwritten before it is looked at (a shared `err` variable assigned twice) lets an ill-typed keyword
+// through: the document is accepted and does not round-trip.
+func ruleC05ErrorsChecked(c *Ctx) {
+	const rule = "C05/errors-checked"
+	n := 0
+	for _, name := range []string{"(*Schema).UnmarshalJSON", "Schema.MarshalJSON"} {
+		root := c.fn(name)
+		if root == nil {
+			c.R.Unresolved(rule, name)
+			continue
+		}
+		c.eachFam(root, func(i ssa.Instruction) {
+			call, ok := i.(*ssa.Call)
+			if !ok {
+				return
+			}
+			res := call.Call.Signature().Results()
+			if res.Len() == 0 || !isErrorType(res.At(res.Len()-1).Type()) {
+				return
+			}
+			var errVal ssa.Value = call
+			if res.Len() > 1 {
+				errVal = nil
+				if refs := call.Referrers(); refs != nil {
+					for _, r := range *refs {
+						if ex, ok := r.(*ssa.Extract); ok && ex.Index == res.Len()-1 {
+							errVal = ex
+						}
+					}
+				}
+			}
+			n++
+			construct := core.FuncName(call.Parent()) + ":" + core.CalleeKey(&call.Call) + "@" + c.pos(call)
+			if errVal == nil {
+				c.R.Bad(rule, construct, c.pos(call), "the error result of this call is discarded: a keyword of the wrong JSON type would be accepted silently")
+				return
+			}
+			c.R.Check(observedOnAllPaths(errVal), rule, construct, c.pos(call), "the error is tested or returned", "the error returned here is never looked at (it is overwritten or dropped before any test): a document with an ill-typed keyword is accepted and does not survive a round trip")
+		})
+	}
+	c.R.Floor(rule, "error-returning calls in the marshal/unmarshal code", n, 10)
+}
+
+// valueObserved: the value reaches a comparison, a return, a call argument, a store or a send - directly or through phis.
+func valueObserved(v ssa.Value, seen map[ssa.Value]bool) bool {
+	if seen[v] {
+		return false
+	}
+	seen[v] = true
+	refs := v.Referrers()
+	if refs == nil {
+		return false
+	}
+	for _, r := range *refs {
+		switch x := r.(type) {
+		case *ssa.Phi:
+			if valueObserved(x, seen) {
+				return true
+			}
+		case *ssa.DebugRef:
+		default:
+			return true
+		}
+	}
+	return false
+}
+
+// observedOnAllPaths: on every path from the definition of v to a return of its function, some instruction
+// looks at the value (a comparison, a return, a call argument, a store ...), where the value is followed
+// through the phis it flows into along that path. A path on which the variable is assigned again before
+// anyone looked (the new value, not v, reaches the merge) ends unobserved.
+func observedOnAllPaths(v ssa.Value) bool {
+	def, ok := v.(ssa.Instruction)
+	if !ok {
+		return true
+	}
+	uses := func(i ssa.Instruction, names map[ssa.Value]bool) bool {
+		switch i.(type) {
+		case *ssa.Phi, *ssa.DebugRef:
+			return false
+		}
+		for _, op := range i.Operands(nil) {
+			if op != nil && *op != nil && names[*op] {
+				// an Extract of the tuple is not a look at the error
+				if _, isEx := i.(*ssa.Extract); isEx {
+					return false
+				}
+				return true
+			}
+		}
+		return false
+	}
+	type state struct {
+		b   *ssa.BasicBlock
+		key string
+	}
+	seen := map[state]bool{}
+	var walk func(b *ssa.BasicBlock, from int, names map[ssa.Value]bool) bool
+	keyOf := func(names map[ssa.Value]bool) string {
+		var ks []string
+		for n := range names {
+			ks = append(ks, n.Name())
+		}
+		sort.Strings(ks)
+		return strings.Join(ks, ",")
+	}
+	walk = func(b *ssa.BasicBlock, from int, names map[ssa.Value]bool) bool {
+		for k := from; k < len(b.Instrs); k++ {
+			if uses(b.Instrs[k], names) {
+				return true
+			}
+		}
+		last := b.Instrs[len(b.Instrs)-1]
+		switch last.(type) {
+		case *ssa.Return:
+			return false
+		case *ssa.Panic:
+			return true
+		}
+		for si, succ := range b.Succs {
+			_ = si
+			next := map[ssa.Value]bool{}
+			for n := range names {
+				next[n] = true
+			}
+			// which predecessor index is b in succ?
+			for pi, pr := range succ.Preds {
+				if pr != b {
+					continue
+				}
+				for _, ins := range succ.Instrs {
+					phi, isPhi := ins.(*ssa.Phi)
+					if !isPhi {
+						break
+					}
+					if names[phi.Edges[pi]] {
+						next[phi] = true
+					} else {
+						delete(next, phi) // redefined along this edge
+					}
+				}
+			}
+			st := state{succ, keyOf(next)}
+			if seen[st] {
+				continue
+			}
+			seen[st] = true
+			if !walk(succ, 0, next) {
+				return false
+			}
+		}
+		return true
+	}
+	b := def.Block()
+	idx := 0
+	for k, i := range b.Instrs {
+		if i == def {
+			idx = k + 1
+		}
+	}
+	return walk(b, idx, map[ssa.Value]bool{v: true})
 }
